@@ -265,9 +265,9 @@ func cmdCheck(args []string) int {
 		fmt.Printf("UNDECIDED property=%s: cannot load %s with -tags verif: %v\n", prop, repo, err)
 		return 2
 	}
-	cfg := RunConfig{TimeoutMs: 20000, Workers: 16}
+	cfg := RunConfig{TimeoutMs: 30000, Workers: 10}
 	if tier == "thorough" {
-		cfg = RunConfig{TimeoutMs: 120000, Workers: 16, All: true}
+		cfg = RunConfig{TimeoutMs: 120000, Workers: 8, All: true}
 	}
 	oc := runProperty(w, prop, cfg, only)
 	known, fixed := loadKnown(filepath.Join(verifDir, "known_findings.txt"))
